@@ -47,6 +47,10 @@ def generate(seed: int, tier: str, index: int) -> dict:
                                             rng.randrange(-10, flen + 10)]), rng.choice([0, 0, 1, 1, 2])])
         elif r < 0.8:
             ops.append(["tell"])
+        elif r < 0.86:
+            # another user of the same file handle (the server opens one handle per file and one windowed reader
+            # per fragment) moves the underlying position between two operations of this reader
+            ops.append(["disturb", rng.choice([0, 1, flen // 3, flen // 2, max(0, flen - 1), flen]), rng.choice([0, 1, 7])])
         else:
             ops.append(["peek", rng.choice([1, 2, 3, 8, bufsize, bufsize + 1, 3 * bufsize + 1, 10 ** 5])])
     return {"property": ID, "seed": seed, "index": index, "tier": tier, "hashseed": index % base.HASHSEEDS,
@@ -124,6 +128,10 @@ def execute(spec: dict) -> dict:
                 if got != want or br.tell() != want:
                     violate("seek-position", f"whence={op[2]}", f"seek returned {got}, tell {br.tell()}, model {want}; {where}")
                     br.seek(want)
+            elif kind == "disturb":
+                chk("disturb")
+                under.seek(min(int(op[1]), spec["file_len"]))
+                under.read(int(op[2]))
             elif kind == "tell":
                 chk("tell")
                 if br.tell() != model.tell():
